@@ -33,7 +33,9 @@ K_SEEDS = {"quick": 6, "thorough": 16}
 RULE = ("Scenario = seeded batch of cases (graph, delivery channel in {nt, tsv, turtle_iter, turtle, xml, json-ld, rdflib.Graph, "
         "endpoint cache on/off with canonical row order, local shape map}, target incl. shape maps and SPARQL selectors, options, "
         "user prefixes incl. ones occupying sheXer's default shape prefixes) executed in K fresh interpreters with distinct "
-        "PYTHONHASHSEED / random.seed / heap garbage; ShExC sha-256 and SHACL canonical graph digest compared across the K. "
+        "PYTHONHASHSEED / random.seed / heap garbage, some of them optimised (-O) and some started under LC_ALL=C with UTF-8 mode off "
+        "(those are asked only for what the unchanged library decodes with an explicit encoding: no output file, no targets handed over as files); "
+        "zip / xz / gz members and a compressed Turtle document with relative IRIs among the channels; ShExC sha-256 and SHACL canonical graph digest compared across the K. "
         "Non-trivial case = at least one shape, at least two constraints of equal frequency in some shape (otherwise no order can "
         "vary) and >= 2 distinct hash seeds run; distinct = distinct case documents.")
 COMPONENTS = components(["SPARQLWrapper -> SimEndpoint with canonical row order (endpoint cases only)"])
@@ -41,6 +43,7 @@ ASSUMPTIONS = [
     "hash seeds are sampled (K per scenario), not enumerated",
     "cases whose user prefixes occupy all four default shape prefixes are generated and executed but exempt, as the statement says (random prefix of last resort)",
     "input documents are serialised once in the parent process: every child parses identical bytes",
+    "all interpreters of a scenario share one working directory (relative IRIs of a document without @base resolve against it)",
 ]
 SELFTEST_HASHSEEDS = ["0", "4242"]
 
